@@ -57,11 +57,15 @@ def gen_obj(schema, cls: str, R: random.Random, depth: int = 0, profile: str = "
         elif k == "objvec":
             ln = 0 if depth >= 2 else (R.choice([0, 0, 1, 2, 3]) if profile != "dense" else R.choice([1, 2, 3]))
             o[n] = [gen_obj(schema, m["cls"], R, depth + 1, profile, pool) for _ in range(ln)]
+        elif k == "enum":
+            o[n] = R.randrange(len(schema["classes"][cls]["enums"][m["enum"]]))
         elif k == "fn":
             pass
     for flag, link in LINK_FLAGS.items():
         if flag in members and link in members:
             o[flag] = o[link] is not None
+    for layer in schema["classes"][cls].get("deref_to", []):
+        o["__inner"] = gen_obj(schema, layer, R, depth + 1, profile, pool)
     if schema["classes"][cls].get("attributes"):
         o["attr:emf"] = fval()
         o["attr:vals"] = [fval() for _ in range(R.choice([0, 1, 3]))]
